@@ -153,7 +153,7 @@ theorem handleSuccess_bk (a : Agent) (now : Nat) (m : Msg) (l r : Cand) (src : N
       · rename_i p _
         refine BK2.trans (BK2.trans (BK2.trans (BK2.trans h0 (hsMark_bk a1 p.id pd)) (hsSel_bk _ p pd))
           (hsFin_bk (a1.modPair p.id (hsMark pd)) p pd _)) ?_
-        exact BK2.modPair_keep _ p.id (fun p => { p with respRecv := p.respRecv + 1 }) (fun _ => rfl) (fun _ => rfl)
+        exact BK2.modPair_keep _ p.id (Pair.gotResponse now pd.ts) (fun _ => rfl) (fun _ => rfl)
           (fun _ => rfl)
 
 /-! ## the request handlers -/
